@@ -63,6 +63,13 @@ func c3ExprPool(thorough bool) []*c3E {
 			out = append(out, c3Bin(op, d, d))
 		}
 	}
+	// one subexpression on both sides with its operands in the two orders (the
+	// second free variable and the string literal make the order observable)
+	for _, op := range c3AllOps {
+		for _, d := range []*c3E{c3Bin("+", c3Var("p"), c3Var("q")), c3Bin("+", c3Var("p"), c3Str("b"))} {
+			out = append(out, c3Bin(op, d, c3Bin(d.V, d.A[1], d.A[0])))
+		}
+	}
 	if thorough {
 		var e1 []*c3E
 		for _, op := range c3DeepOps {
